@@ -38,7 +38,98 @@ pub const FSST_KINDS: &[&str] = &[
     "empty",         // zero strings / only empty strings
     "skewed",        // 2-4 distinct byte values, one of them rare (terminator selection)
     "prefixes",      // all prefixes / suffixes of one base string (symbol overlap)
+    // structured binary corpora: records over a small vocabulary of multi-byte tokens that together cover
+    // all 256 byte values, Zipf frequencies (multi-byte symbols containing rare bytes are learned and the
+    // terminator — the rarest byte — really occurs in the data)
+    "tokens",        // short records cut at token boundaries and mid-token, optional trailing 0x00 / 0xFF
+    "tokens511",     // long records whose lengths sit around multiples of 511 (compress_bulk chunking)
+    "tokens_edge",   // total size around FSST_LEAST_INPUT_SIZE
 ];
+
+/// kind of FSST case `idx`: every third case is one of the structured token corpora
+pub fn fsst_kind_for(idx: u64) -> &'static str {
+    let n = FSST_KINDS.len() as u64;
+    if idx % 3 == 0 {
+        FSST_KINDS[(n - 3 + (idx / 3) % 3) as usize]
+    } else {
+        FSST_KINDS[((idx - idx / 3 - 1) % (n - 3)) as usize]
+    }
+}
+
+pub struct TokenVocab {
+    pub tokens: Vec<Vec<u8>>,
+    /// cumulative Zipf weights
+    cum: Vec<f64>,
+}
+
+impl TokenVocab {
+    pub fn new(rng: &mut Rng) -> Self {
+        let ntok = rng.urange(22, 64);
+        let mut perm: Vec<u8> = (0..=255u8).collect();
+        rng.shuffle(&mut perm);
+        let shared: Vec<u8> = (0..rng.urange(2, 6)).map(|_| rng.next_u32() as u8).collect();
+        let mut tokens: Vec<Vec<u8>> = vec![];
+        let mut next = 0usize;
+        for t in 0..ntok {
+            let left_tokens = ntok - t;
+            let need = (256 - next).div_ceil(left_tokens); // bytes this token must still cover
+            let len = rng.urange(need.max(2), 12.max(need.max(2)));
+            let mut tok = Vec::with_capacity(len);
+            for _ in 0..len {
+                if next < 256 && (tok.len() < need || rng.chance(1, 3)) {
+                    tok.push(perm[next]);
+                    next += 1;
+                } else {
+                    tok.push(*rng.pick(&shared));
+                }
+            }
+            tokens.push(tok);
+        }
+        // any byte still uncovered goes to the last tokens
+        let mut t = 0;
+        while next < 256 {
+            let k = tokens.len() - 1 - (t % tokens.len());
+            tokens[k].push(perm[next]);
+            next += 1;
+            t += 1;
+        }
+        // which token is frequent is independent of which bytes it carries
+        rng.shuffle(&mut tokens);
+        let s = *rng.pick(&[0.7f64, 1.0, 1.3, 1.8]);
+        let mut cum = Vec::with_capacity(ntok);
+        let mut acc = 0.0;
+        for k in 0..tokens.len() {
+            acc += 1.0 / ((k + 1) as f64).powf(s);
+            cum.push(acc);
+        }
+        Self { tokens, cum }
+    }
+    pub fn pick<'a>(&'a self, rng: &mut Rng) -> &'a [u8] {
+        let x = rng.f64() * self.cum[self.cum.len() - 1];
+        let k = self.cum.partition_point(|c| *c < x).min(self.tokens.len() - 1);
+        &self.tokens[k]
+    }
+    /// a record of about `len` bytes; `cut`: 0 = ends on a token boundary, 1 = ends inside a token (exactly
+    /// `len` bytes), 2 = also starts inside a token; `trail`: optional extra last byte
+    pub fn record(&self, rng: &mut Rng, len: usize, cut: u64, trail: Option<u8>) -> Vec<u8> {
+        let mut s: Vec<u8> = vec![];
+        if cut == 2 {
+            let t = self.pick(rng);
+            let a = rng.usize_below(t.len());
+            s.extend_from_slice(&t[a..]);
+        }
+        while s.len() < len {
+            s.extend_from_slice(self.pick(rng));
+        }
+        if cut >= 1 {
+            s.truncate(len);
+        }
+        if let Some(b) = trail {
+            s.push(b);
+        }
+        s
+    }
+}
 
 #[derive(Clone)]
 pub struct FsstCase {
@@ -293,6 +384,43 @@ pub fn gen_fsst(rng: &mut Rng, kind: &'static str, scale: u32) -> FsstCase {
                 let b = r.urange(a, base.len());
                 base[a..b].to_vec()
             })
+        }
+        "tokens" | "tokens511" | "tokens_edge" => {
+            let v = TokenVocab::new(rng);
+            let trail_mode = rng.below(4); // none / sometimes 0x00 / sometimes 0xFF / mixed
+            let mut trail = |r: &mut Rng| -> Option<u8> {
+                match trail_mode {
+                    0 => None,
+                    1 => r.chance(1, 2).then_some(0x00),
+                    2 => r.chance(1, 2).then_some(0xFF),
+                    _ => match r.below(4) {
+                        0 => Some(0x00),
+                        1 => Some(0xFF),
+                        _ => None,
+                    },
+                }
+            };
+            let total = if kind == "tokens_edge" { (FSST_LEAST_INPUT_SIZE as i64 + rng.range(-3, 40)) as usize } else { target };
+            let mut out: Vec<Vec<u8>> = vec![];
+            let mut tot = 0usize;
+            while tot < total {
+                let len = match kind {
+                    "tokens511" => {
+                        let m = rng.urange(1, 4);
+                        ((m * 511) as i64 + rng.range(-9, 9)).max(1) as usize
+                    }
+                    _ => *rng.pick(&[1usize, 2, 3, 5, 8, 13, 21, 34, 60, 100, 200]) + rng.usize_below(4),
+                };
+                let cut = rng.below(3);
+                let t = trail(rng);
+                let mut rec = v.record(rng, len, cut, t);
+                if kind == "tokens_edge" && tot + rec.len() > total {
+                    rec.truncate(total - tot);
+                }
+                tot += rec.len().max(1);
+                out.push(rec);
+            }
+            out
         }
         _ => unreachable!(),
     };
